@@ -17,7 +17,13 @@ Inductive frame :=
 | FWebTransport (session : N).
 
 (* what the QUIC layer can report instead of data *)
-Inductive qerr := QTerminated (code : N) | QConnApp (code : N) | QTimeout | QInternal.
+Inductive qerr :=
+| QTerminated (code : N)     (* StreamErrorIncoming::StreamTerminated: RESET_STREAM from the peer *)
+| QConnApp (code : N)        (* connection closed by the peer with an application code *)
+| QTimeout                   (* connection idle timeout *)
+| QInternal                  (* ConnectionErrorIncoming::InternalError of the transport implementation *)
+| QStreamUnknown             (* StreamErrorIncoming::Unknown: a stream failure h3 knows nothing about *)
+| QConnUndefined.            (* ConnectionErrorIncoming::Undefined: a transport failure h3 knows nothing about *)
 
 (* one event of a receive stream; Fin and Abort are terminal and sticky *)
 Inductive ev := Chunk (b : bytes) | Fin | Abort (e : qerr).
